@@ -86,7 +86,11 @@ def load_dump(w, dump):
 
 
 def fresh_world(backend, dump):
-    w = World(backend, storage_options={"stats_interval": 1e15}, message_timeout=1e300)
+    so = {"stats_interval": 1e15}
+    if backend == "sql":
+        # one slot of each pooled resource: whatever a failed event does not give back is missing for the next one
+        so.update({"num_concurrent_adds": 1, "num_concurrent_reqs": 1})
+    w = World(backend, storage_options=so, message_timeout=1e300)
     if dump is not None:
         load_dump(w, dump)
     sub = w.connect("s", "2.2.2.2")
